@@ -3,6 +3,7 @@ package server
 import (
 	"bytes"
 	"context"
+	"encoding/binary"
 	"errors"
 	"github.com/aldas/go-modbus-client/packet"
 )
@@ -60,7 +61,11 @@ func (m *ModbusTCPAssembler) handleNextPacket(ctx context.Context) (response []b
 		if errors.As(err, &target) {
 			return target.Bytes(), true, false
 		}
-		return packet.NewErrorParseTCP(packet.ErrUnknown, err.Error()).Bytes(), true, false
+		tmpErr := packet.NewErrorParseTCP(packet.ErrServerFailure, err.Error())
+		tmpErr.Packet.TransactionID = binary.BigEndian.Uint16(data[0:2])
+		tmpErr.Packet.UnitID = data[6]
+		tmpErr.Packet.Function = p.FunctionCode()
+		return tmpErr.Bytes(), true, false
 	}
 
 	return resp.Bytes(), true, false
